@@ -1,7 +1,7 @@
 #!/bin/sh
 # Offline setup after a fresh restore: build the driver and instrumenter, warm the Go build cache for
 # the worker flavours and run the passthrough self-test of the instrumenter.
-cd /verif || exit 2
+cd "$(dirname "$0")" || exit 2
 unset GOTOOLCHAIN GOSUMDB
 export GOFLAGS=-mod=mod GOPROXY=off
 mkdir -p bin evidence replays
